@@ -52,6 +52,8 @@ structure Quirks where
   exportParamTruthy : Bool := false
   /-- cirq exporter raises on `Barrier` / `NopGate` -/
   cirqNopRaises : Bool := false
+  /-- decopt splices a re-synthesised section in although the re-synthesis renamed a qubit -/
+  spliceIgnoresRename : Bool := false
   deriving Repr, DecidableEq, Inhabited
 
 def Quirks.none : Quirks := {}
@@ -78,6 +80,7 @@ def Quirks.ofList (l : List String) : Quirks :=
     qasmFormalsFromKeys := l.contains "qasmFormalsFromKeys"
     qasmParam2f := l.contains "qasmParam2f"
     exportParamTruthy := l.contains "exportParamTruthy"
-    cirqNopRaises := l.contains "cirqNopRaises" }
+    cirqNopRaises := l.contains "cirqNopRaises"
+    spliceIgnoresRename := l.contains "spliceIgnoresRename" }
 
 end QV
